@@ -4,6 +4,9 @@ import json, os, sys
 ROOT = os.path.dirname(os.path.dirname(os.path.abspath(__file__)))
 sys.path.insert(0, os.path.join(ROOT, "tools"))
 from qvconfig import PROPS, HOOK_COMMITS, NOT_APPLICABLE  # noqa
+import qvconfig
+PENDING = getattr(qvconfig, 'PENDING', {})
+PROPS = {k: v for k, v in PROPS.items() if k not in PENDING}
 
 props = [json.loads(l) for l in open(os.path.join(ROOT, "properties.jsonl"))]
 m = {
@@ -42,6 +45,6 @@ for p in props:
             "technique": c.get("technique", "Lean 4 proof about an executable model + differential correspondence with /repo"),
         })
     else:
-        m["not_applicable"].append({"property_id": pid, "reason": NOT_APPLICABLE.get(pid, "not yet claimed: check under construction (DESIGN.md §7 order of work)")})
+        m["not_applicable"].append({"property_id": pid, "reason": PENDING.get(pid) or NOT_APPLICABLE.get(pid, "not yet claimed: check under construction (DESIGN.md §7 order of work)")})
 json.dump(m, open(os.path.join(ROOT, "MANIFEST.json"), "w"), indent=1)
 print("claimed:", sorted(PROPS.keys()))
